@@ -186,3 +186,149 @@ Example ex_check_neg : check_buffer (-1) true ex_sq 1000 8 (1, 1)%Z [[[(1000, 10
   /\ check_buffer (-1) true ex_sq 1000 8 (1, 1)%Z [[[(500, 500); (3000, 1000); (3000, 3000); (1000, 3000); (500, 500)]%Z]] [(700, 720)]%Z = ([], [0%Z])
   /\ check_buffer 0 true ex_sq 0 8 (1, 1)%Z (in_polys ex_sq) [(2000, 2000); (0, 0); (5000, 0)]%Z = ([], []).
 Proof. vm_compute. auto. Qed.
+
+(* ---- the decisions that DROP a ring (negative / hole-side buffers) ----------------------------------------------------------- *)
+(* Translated from /repo on every run (doubles read as reals, C06/GenPreludeErode = C08/GenPreludeR + ring / triangle / envelope
+   representation): Triangle::inCentre (Gen/C06_inCentre), BufferCurveSetBuilder::isTriangleErodedCompletely (Gen/C06_triEroded),
+   BufferCurveSetBuilder::isRingFullyEroded, 4-argument form (Gen/C06_ringEroded), Envelope::getWidth / getHeight; the distance is
+   C08's translated Distance::pointToSegment.  Imported here (not at the top) because C08's prelude reuses the short names of
+   C06/PreludeR. *)
+From Coq Require Import Lra.
+From GeosV.C08 Require Import RealDistDefs RealPtSeg.
+From GeosV.C06 Require Import GenPreludeErode ErodeDefs ErodeTri ErodeEnv.
+From GeosV.Gen Require Import C08_ptSeg C06_inCentre C06_triEroded C06_ringEroded.
+
+(* (a) the generated Triangle::inCentre is (a A + b B + c C)/(a + b + c), a b c the lengths of the opposite sides ... *)
+Theorem C06_gen_inCentre_is_incentre : forall A B C r0, m_inCentre_1 (mk_Triangle_3 A B C) r0 = incentre A B C.
+Proof. exact gen_inCentre_is_incentre. Qed.
+Print Assumptions C06_gen_inCentre_is_incentre.
+(* ... and that point is at EQUAL distance r = 2 area / perimeter from the three side lines *)
+Theorem C06_incentre_equidistant : forall A B C, 0 < distR A B -> 0 < distR B C -> 0 < distR A C ->
+  line_dist (incentre A B C) A B = inradius A B C /\ line_dist (incentre A B C) B C = inradius A B C /\
+  line_dist (incentre A B C) C A = inradius A B C.
+Proof. exact incentre_equidistant. Qed.
+Print Assumptions C06_incentre_equidistant.
+Theorem C06_line_dist_is_dist : forall p a b, 0 < distR a b -> is_pt_line_dist (line_dist p a b) p a b.
+Proof. exact line_dist_is_dist. Qed.
+Print Assumptions C06_line_dist_is_dist.
+
+(* (b) the generated isTriangleErodedCompletely is true iff inradius < |d| — for every triangle of positive perimeter, flat ones
+   included (inradius 0: "eroded" iff d <> 0).  Three coincident corners: 0/0 = NaN and `false` in the code; not covered. *)
+Theorem C06_gen_triEroded_iff : forall A B C rest d, 0 < perim A B C ->
+  (g_isTriangleErodedCompletely (A :: B :: C :: rest) d = true <-> inradius A B C < Rabs d).
+Proof. exact gen_triEroded_iff. Qed.
+Print Assumptions C06_gen_triEroded_iff.
+
+(* (c) the incentre maximises the distance to the boundary: every point of the closed triangle has a boundary point within r;
+   also for the distances to the three side lines (smallest of the three <= r) *)
+Theorem C06_tri_boundary_within_inradius : forall A B C p, 0 < distR A B -> 0 < distR B C -> 0 < distR A C -> in_tri p A B C ->
+  exists q, on_tri_boundary q A B C /\ distR p q <= inradius A B C.
+Proof. exact tri_boundary_within_inradius. Qed.
+Print Assumptions C06_tri_boundary_within_inradius.
+Theorem C06_tri_line_dist_max : forall A B C p, 0 < distR A B -> 0 < distR B C -> 0 < distR A C -> in_tri p A B C ->
+  Rmin (line_dist p A B) (Rmin (line_dist p B C) (line_dist p C A)) <= inradius A B C.
+Proof. exact tri_line_dist_max. Qed.
+Print Assumptions C06_tri_line_dist_max.
+(* SOUNDNESS of dropping a triangular ring: test true => no point of the closed triangle is at distance >= |d| from its boundary *)
+Theorem C06_gen_triEroded_sound : forall A B C rest d, 0 < distR A B -> 0 < distR B C -> 0 < distR A C ->
+  g_isTriangleErodedCompletely (A :: B :: C :: rest) d = true ->
+  forall p, in_tri p A B C -> exists q, on_tri_boundary q A B C /\ distR p q < Rabs d.
+Proof. exact gen_triEroded_sound. Qed.
+Print Assumptions C06_gen_triEroded_sound.
+(* ... and the test is exact: test false => |d| <= inradius, attained at the incentre, a point of the triangle *)
+Theorem C06_gen_triEroded_complete : forall A B C rest d, 0 < perim A B C ->
+  g_isTriangleErodedCompletely (A :: B :: C :: rest) d = false ->
+  Rabs d <= inradius A B C /\ in_tri (incentre A B C) A B C.
+Proof. exact gen_triEroded_complete. Qed.
+Print Assumptions C06_gen_triEroded_complete.
+
+(* the generated isRingFullyEroded, case by case *)
+Theorem C06_gen_ringEroded_small : forall l e isHole d, (length l < 4)%nat -> g_isRingFullyEroded tt l e isHole d = true.
+Proof. exact gen_ringEroded_small. Qed.
+Print Assumptions C06_gen_ringEroded_small.
+Theorem C06_gen_ringEroded_triangle : forall l e isHole d, length l = 4%nat ->
+  g_isRingFullyEroded tt l e isHole d = g_isTriangleErodedCompletely l d.
+Proof. exact gen_ringEroded_triangle. Qed.
+Print Assumptions C06_gen_ringEroded_triangle.
+Theorem C06_gen_ringEroded_large : forall l e isHole d, (length l > 4)%nat ->
+  (g_isRingFullyEroded tt l e isHole d = true <-> erodable isHole d /\ 2 * Rabs d > Rmin (height e) (width e)).
+Proof. exact gen_ringEroded_large. Qed.
+Print Assumptions C06_gen_ringEroded_large.
+
+(* (d) the envelope test: a location enclosed by the ring in the vertical (horizontal) direction has a ring point within half the
+   envelope height (width) *)
+Theorem C06_narrow_height : forall l p, v_enclosed p l -> exists q, on_ring q l /\ 2 * distR p q <= height (env_of l).
+Proof. exact narrow_height. Qed.
+Print Assumptions C06_narrow_height.
+Theorem C06_narrow_width : forall l p, h_enclosed p l -> exists q, on_ring q l /\ 2 * distR p q <= width (env_of l).
+Proof. exact narrow_width. Qed.
+Print Assumptions C06_narrow_width.
+(* SOUNDNESS of dropping a ring of more than 4 points: decision true (on the ring's own envelope) => the ring is erodable for this
+   sign of d, and every location from which all four axis-parallel rays meet the ring has a ring point at distance < |d| *)
+Theorem C06_gen_ringEroded_sound : forall l isHole d, (length l > 4)%nat -> g_isRingFullyEroded tt l (env_of l) isHole d = true ->
+  erodable isHole d /\ forall p, v_enclosed p l -> h_enclosed p l -> exists q, on_ring q l /\ distR p q < Rabs d.
+Proof. exact gen_ringEroded_sound. Qed.
+Print Assumptions C06_gen_ringEroded_sound.
+(* the even-odd rule gives "enclosed": closed ring, p not on it, odd number of crossings of the upward ray => the vertical line
+   through p meets the ring above and below p *)
+Theorem C06_inside_eo_v_enclosed : forall l p, closed_ring l -> inside_eo p l -> v_enclosed p l.
+Proof. exact inside_eo_v_enclosed. Qed.
+Print Assumptions C06_inside_eo_v_enclosed.
+(* PARTIAL.  Full statement: closed_ring l -> length l > 4 -> decision true -> forall p, inside_eo p l -> exists q on the ring with
+   |pq| < |d|.  Proved with the even-odd condition for BOTH axis directions; missing: direction independence of the even-odd rule,
+   closed_ring l -> inside_eo p l -> inside_eo (swap p) (map swap l). *)
+Theorem C06_gen_ringEroded_sound_eo_partial : forall l isHole d, closed_ring l -> (length l > 4)%nat ->
+  g_isRingFullyEroded tt l (env_of l) isHole d = true ->
+  forall p, inside_eo p l -> inside_eo (swap p) (map swap l) -> exists q, on_ring q l /\ distR p q < Rabs d.
+Proof. exact gen_ringEroded_sound_eo_partial. Qed.
+Print Assumptions C06_gen_ringEroded_sound_eo_partial.
+
+(* ---- non-vacuity of the ring-dropping theorems ------------------------------------------------------------------------------ *)
+(* the 3-4-5 triangle: inradius 1, incentre (1,1); eroded completely by d = -2, not by d = 1/2 *)
+Definition exA := mk_rpt 0 0.
+Definition exB := mk_rpt 4 0.
+Definition exC := mk_rpt 0 3.
+Example ex_tri_sides : distR exA exB = 4 /\ distR exB exC = 5 /\ distR exA exC = 3.
+Proof.
+  assert (S : forall x y, 0 <= y -> x = y * y -> sqrt x = y) by (intros x y Hy E; subst x; apply sqrt_square; exact Hy).
+  unfold distR, d2R, exA, exB, exC; cbn [f_x f_y]. repeat split; apply S; try lra; ring.
+Qed.
+Example ex_tri_inradius : inradius exA exB exC = 1 /\ in_tri (mk_rpt 1 1) exA exB exC.
+Proof.
+  destruct ex_tri_sides as [E1 [E2 E3]]. split.
+  - unfold inradius, perim, area2. rewrite E1, E2, E3. replace (crossR exA exB exC) with (-12) by (unfold crossR, exA, exB, exC; cbn [f_x f_y]; ring).
+    rewrite Rabs_left by lra. lra.
+  - exists (5 / 12), (3 / 12), (4 / 12). repeat split; try lra. unfold bary, exA, exB, exC; cbn [f_x f_y]. f_equal; lra.
+Qed.
+Example ex_tri_eroded : g_isTriangleErodedCompletely [exA; exB; exC; exA] (-2) = true /\
+  g_isTriangleErodedCompletely [exA; exB; exC; exA] (1 / 2) = false.
+Proof.
+  destruct ex_tri_sides as [E1 [E2 E3]]. destruct ex_tri_inradius as [Er _].
+  assert (Hp : 0 < perim exA exB exC) by (unfold perim; rewrite E1, E2, E3; lra). split.
+  - apply gen_triEroded_iff; [exact Hp |]. rewrite Er, Rabs_left by lra. lra.
+  - destruct (g_isTriangleErodedCompletely [exA; exB; exC; exA] (1 / 2)) eqn:E; [| reflexivity].
+    apply gen_triEroded_iff in E; [| exact Hp]. rewrite Er, Rabs_pos_eq in E by lra. exfalso; lra.
+Qed.
+(* a 10 x 2 rectangle as a shell, d = -3/2: dropped by the envelope test; its centre is enclosed in both directions *)
+Definition ex_rect : list rpt := [mk_rpt 0 0; mk_rpt 10 0; mk_rpt 10 2; mk_rpt 0 2; mk_rpt 0 0].
+Example ex_rect_eroded : g_isRingFullyEroded tt ex_rect (env_of ex_rect) false (- (3 / 2)) = true.
+Proof.
+  apply gen_ringEroded_large; [cbn; lia |]. split; [right; split; [reflexivity | lra] |].
+  rewrite Rabs_left by lra. apply Rle_lt_trans with (height (env_of ex_rect)); [apply Rmin_l |].
+  unfold height, ex_rect. cbn [env_of f_null f_maxy f_miny fold_right f_y].
+  assert (Rmax 0 (Rmax 2 (Rmax 2 (Rmax 0 0))) <= 2) by (repeat apply Rmax_lub; lra).
+  assert (0 <= Rmin 0 (Rmin 2 (Rmin 2 (Rmin 0 0)))) by (repeat apply Rmin_glb; lra). lra.
+Qed.
+Example ex_rect_enclosed : v_enclosed (mk_rpt 5 1) ex_rect /\ h_enclosed (mk_rpt 5 1) ex_rect /\ closed_ring ex_rect.
+Proof.
+  assert (M : forall a b, In (a, b) (segs ex_rect) -> on_ring (lerp a b (1 / 2)) ex_rect).
+  { intros a b H. exists (a, b). split; [exact H | apply RealPtSeg.on_seg_lerp; lra]. }
+  split; [| split].
+  - split; [exists (mk_rpt 5 2) | exists (mk_rpt 5 0)]; (split; [| cbn [f_x f_y]; lra]).
+    + replace (mk_rpt 5 2) with (lerp (mk_rpt 10 2) (mk_rpt 0 2) (1 / 2)) by (unfold lerp; cbn [f_x f_y]; f_equal; lra). apply M. cbn. tauto.
+    + replace (mk_rpt 5 0) with (lerp (mk_rpt 0 0) (mk_rpt 10 0) (1 / 2)) by (unfold lerp; cbn [f_x f_y]; f_equal; lra). apply M. cbn. tauto.
+  - split; [exists (mk_rpt 10 1) | exists (mk_rpt 0 1)]; (split; [| cbn [f_x f_y]; lra]).
+    + replace (mk_rpt 10 1) with (lerp (mk_rpt 10 0) (mk_rpt 10 2) (1 / 2)) by (unfold lerp; cbn [f_x f_y]; f_equal; lra). apply M. cbn. tauto.
+    + replace (mk_rpt 0 1) with (lerp (mk_rpt 0 2) (mk_rpt 0 0) (1 / 2)) by (unfold lerp; cbn [f_x f_y]; f_equal; lra). apply M. cbn. tauto.
+  - exists (mk_rpt 0 0), [mk_rpt 10 0; mk_rpt 10 2; mk_rpt 0 2]. reflexivity.
+Qed.
